@@ -853,6 +853,11 @@ class ConsInterp(Interp):
             mark = amount[2]
             for r in st.res.values():
                 if r.seq > mark and r.kind in ('tok', 'spacer', 'call'):
+                    if r.status not in ('live', 'rolledback', 'reported') and r.whi != 0 and not getattr(self, 'peekmode', False):
+                        eng.note(CFind('rollback-of-stored', self.fd, n, 'the cursor is wound back to a saved position although '
+                                       'tokens consumed since then (%s) are already part of the tree: they would be read a second '
+                                       'time and appear twice in the output' % r.desc, st.trail), st)
+                        continue
                     r.status = 'rolledback'
             st.epoch += 1
             return [(('other',), st)]
